@@ -609,7 +609,7 @@ impl M {
 			Op::RestartSig { sig, grace_ms } => two(Ctl::GracefulStop { sig: *sig, grace: *grace_ms }, Ctl::Start),
 			Op::TryRestartSig { sig, grace_ms } => one(Ctl::TryGracefulRestart { sig: *sig, grace: *grace_ms }),
 			Op::Signal(s) => one(Ctl::Signal(*s)),
-			Op::ToWait => one(Ctl::NextEnding),
+			Op::ToWait | Op::RawNextEnding => one(Ctl::NextEnding),
 			Op::Delete | Op::DeleteNow => two(Ctl::Stop, Ctl::Delete),
 			// `Continue` is generated for C04 only and `SetAsyncHook` scenarios are judged by invariants alone: neither
 			// reaches the model
